@@ -10,6 +10,7 @@ CONSTANTS Accts = {"a1", "a2"}
           NTips = 2
           Cap = 3
           HistLen = 12
+          Foreign = FALSE
           Crash = TRUE
 INVARIANTS NonceContiguous AffordableTotal IndexMatchesStore LimboRetains LimboSound PerAccountLimit
 CONSTRAINT Emit
